@@ -269,9 +269,16 @@ Definition generate_pat (s : mstate) : mstate * res (Packet * list Z) :=
       end
   end.
 
+(* the int size generatePMT computes before it builds the section (program descriptors: none) *)
+Definition pmt_size (streams : list PMTElementaryStream) : Z :=
+  fold_left (fun n es => fold_left (fun k d => k + (2 + calc_descriptor_length d))
+                                   (PMTElementaryStream_ElementaryStreamDescriptors es) (n + 5))
+            streams 4.
+
 (* generatePMT *)
 Definition generate_pmt (s : mstate) : mstate * res (Packet * list Z) :=
   if negb (stream_pid_in (ms_pcr_pid s) (ms_streams s)) then (s, Err E_pcr_pid) else
+  if pmt_size (ms_streams s) >? 1021 - 9 then (s, Err E_generic) else
   let '(pmtv, version) := next_version (ms_pmt_version s) (ms_pmt_updated s) in
   let s1 := set_tables s (ms_pat_version s) pmtv (ms_pat_cc s) (ms_pmt_cc s) (ms_pm_updated s) (ms_pmt_updated s) in
   match write_psi_data (psi_of_section (pmt_section s version)) with
